@@ -292,6 +292,7 @@ def single_visit(F, rep):
                         rb = f.reachable(b.target) if b.target is not None else set()
                         if b.bb in ra or a.bb in rb:
                             doubles.append((p, key, a, b))
+    whole_then_parts(F, rep)
     seen = set()
     for p, key, a, b in doubles:
         fshort = mir.short(re.sub(r"::\{closure#\d+\}", "::{closure}", p))
@@ -801,3 +802,75 @@ def path_parts_exist(F, rep, rule="C16.path-shape"):
                     % (live, uw[0].span)) if bad else "live path features: %s, shadowed by ordered choice: %s" % (live, shadowed), c.span, fn=f.path,
                    key="%s|%s|%s" % (rule, fshort, mir.short(c.callee()).split("::")[-1]))
     rep.floor(rule + " unwrapped path parts", n, 1)
+
+
+def whole_then_parts(F, rep, rule="C16.single-visit"):
+    """TypeLayout::eq_complex is the compiler's type compatibility relation; `==` on two list types *is* that relation (<ListType as PartialEq>::eq
+    calls eq_complex).  A level of the recursion that first asks `lhs == rhs` of two composite types of the same shape - which walks both
+    completely - and on a mismatch descends into their parts again does 2^depth work: `x: [[..[int...]..]...] = [[..["a"]..]]` nested 30 deep
+    takes minutes.  Decided by evaluating eq_complex abstractly on same-shaped composite operands (list / list, present optional / present
+    optional; parts opaque) with the two kinds of call recorded instead of followed: no path performs the whole-value `==` and a recursive
+    eq_complex on a part."""
+    import tables
+    import absint
+    from props import _hashkeys
+    from absint import Interp, Variant, Opaque, TRUE, FALSE, NONE, some
+    eqc = [f for f in F.crates["compiler"].fns if f.path.endswith("TypeLayout::eq_complex") and f.kind != "Closure"]
+    fl = F.adt("compiler::ast::r#type::TypecheckFlags")
+    if len(eqc) != 1 or fl is None:
+        raise AnchorMissing("TypeLayout::eq_complex / TypecheckFlags")
+    eqc = eqc[0]
+    TLp = "compiler::ast::r#type::TypeLayout"
+    LTp = "compiler::ast::list::ListType"
+    tl, lt = F.adt(TLp), F.adt(LTp)
+    if tl is None or lt is None:
+        raise AnchorMissing("TypeLayout / ListType")
+    tln = [v["name"] for v in tl["variants"]]
+    ltn = [v["name"] for v in lt["variants"]]
+
+    def owned(v):
+        return Variant("alloc::borrow::Cow", 1, "Owned", [v])
+
+    def open_(tag):
+        return Variant(TLp, tln.index("List"), "List", [Variant(LTp, ltn.index("Open"), "Open", [owned(Opaque(tag, TLp))])])
+
+    def mixed(tag):
+        return Variant(TLp, tln.index("List"), "List", [Variant(LTp, ltn.index("Mixed"), "Mixed", [absint.Tup([owned(Opaque(tag + "0", TLp)), owned(Opaque(tag + "1", TLp))])])])
+
+    def opt(tag):
+        return Variant(TLp, tln.index("Optional"), "Optional", [some(owned(Opaque(tag, TLp)))])
+    shapes = (("[T...] with [U...]", open_("t"), open_("u")), ("[T, T2] with [U, U2]", mixed("t"), mixed("u")), ("[T, T2] with [U...]", mixed("t"), open_("u")),
+              ("T? with U?", opt("t"), opt("u")),
+              ("[T...]? with [U...]?", Variant(TLp, tln.index("Optional"), "Optional", [some(owned(open_("t")))]), Variant(TLp, tln.index("Optional"), "Optional", [some(owned(open_("u")))])))
+
+    def part(it, p, fid, fn, t, args):
+        # depth 1: eq_complex itself descends into a part; deeper: a PartialEq impl (entered for `lhs == rhs`) came back to eq_complex
+        p.events.append(("part" if len(p.stack) <= 1 else "whole-eq", t.get("sp")))
+        return Opaque("compatible", "bool")
+    n = 0
+    for label, a, b in shapes:
+        models = dict(tables.MODELS)
+        models.update(_hashkeys._iter_models())
+        models.update({"compiler::ast::r#type::TypeLayout::eq_complex": part})
+        vals = {"executing_class": NONE}
+        flags = Variant("compiler::ast::r#type::TypecheckFlags", 0, "TypecheckFlags", [vals.get(x["name"], FALSE) for x in fl["variants"][0]["fields"]])
+        it = Interp(F, models=models, max_depth=6, max_paths=2048, loop_bound=4)
+        try:
+            outs = it.run(eqc, [a, b, flags])
+        except (ValueError, KeyError) as e:
+            outs = []
+        both = []
+        for o in outs:
+            ev = [e[0] for e in o.events]
+            if "whole-eq" in ev and "part" in ev[ev.index("whole-eq"):]:
+                both.append([e for e in o.events if e[0] in ("whole-eq", "part")])
+        key = "%s|eq_complex|%s" % (rule, label.replace(" ", ""))
+        if not outs or it.exhausted:
+            rep.ob(rule, "eq_complex on %s: the parts are visited once" % label, "undecided", "not evaluated (paths=%d, exhausted=%s)" % (len(outs), it.exhausted), eqc.span,
+                   fn=eqc.path, key=key)
+            continue
+        n += 1
+        rep.ob(rule, "eq_complex on %s: the parts are visited once (no whole-value `==` before the part-wise comparison)" % label, "violated" if both else "ok",
+               ("`==` at %s walks both types completely (list types compare through eq_complex itself), then eq_complex at %s descends into the parts again: 2^depth work "
+                "on nested types" % (both[0][0][1], [e[1] for e in both[0] if e[0] == "part"][0])) if both else "", eqc.span, fn=eqc.path, key=key)
+    rep.floor(rule + " eq_complex shapes evaluated", n, 3)
